@@ -23,7 +23,7 @@ SIM_SEEDS = [11, 12]
 SIM_TWICE = {"vec_u64", "bytes", "vec_u64_grow", "vec_pair_grow", "bytes_grow"}      # these run with both seeds
 SIM_WALKS = 100
 NUM = ["u8", "u16", "u32", "u64", "u128a", "u128b", "u256a", "u256b", "u256c"]
-TLC_PAR = 4
+TLC_PAR = 4          # single-worker TLC processes side by side (the design-level run adds 2 workers in the thorough tier)
 
 
 def _gen(ctx, name, sim_seed=None):
@@ -183,11 +183,10 @@ def run(ctx):
     # ---- 0. the collection model on its own (thorough): all histories new ++ <= 3 operations of a Bytes over the full
     #         alphabet, invariants CapInv + Laws, with action coverage
     mc_cov = None
+    mc_future = None
+    mcx = ThreadPoolExecutor(max_workers=1)
     if not quick:
-        mc = ctx.tlc("MC_StdModels", "MC_StdModels", workers=2, coverage=True, xss="256m", timeout=3600)
-        if mc.violated:
-            ctx.report("model:" + mc.violated, "StdModels.tla violates its own invariant " + mc.violated, {"tlc": mc.counterexample()[:4000]})
-        mc_cov = mc.coverage_actions()
+        mc_future = mcx.submit(lambda: ctx.tlc("MC_StdModels", "MC_StdModels", workers=2, coverage=True, xss="256m", timeout=3600))
     # ---- 1. pools from TLC
     if quick:
         gens = slice_for_seed(GEN, ctx.seed, 1)
@@ -210,6 +209,12 @@ def run(ctx):
         else:
             hist += recs
     log("[C27] pools %s in %.0fs" % (pools, time.time() - t0))
+    if mc_future is not None:
+        mc = mc_future.result()
+        if mc.violated:
+            ctx.report("model:" + mc.violated, "StdModels.tla violates its own invariant " + mc.violated, {"tlc": mc.counterexample()[:4000]})
+        mc_cov = mc.coverage_actions()
+    mcx.shutdown()
     if quick:
         walks = [h for h in hist if h["id"].startswith("sim:")]
         hist = slice_for_seed([h for h in hist if not h["id"].startswith("sim:")], ctx.seed, 800) + slice_for_seed(walks, ctx.seed, 40)
